@@ -84,8 +84,8 @@ pub fn owns_panic(prop: u8, double: bool, op: &'static str, after_special: bool)
         3 => true,
         6 => matches!(op, "sorted" | "sorted_iter" | "adaptor_sorted"),
         7 => matches!(op, "extend" | "append" | "from_vec" | "from_iter" | "convert" | "ctor"),
-        8 => matches!(op, "retain" | "retain_mut" | "iter_mut" | "pop_if" | "adaptor_iter_mut"),
-        9 => matches!(op, "iter_mut" | "adaptor_iter_mut"),
+        8 => matches!(op, "retain" | "retain_mut" | "iter_mut" | "iter_mut_late_write" | "pop_if" | "adaptor_iter_mut"),
+        9 => matches!(op, "iter_mut" | "iter_mut_late_write" | "adaptor_iter_mut"),
         11 => matches!(op, "push_increase" | "push_decrease"),
         13 => matches!(op, "iter" | "ref_into_iter" | "into_iter" | "drain" | "sorted_iter" | "adaptor" | "adaptor_sorted"),
         14 => matches!(op, "eq" | "clone"),
@@ -156,6 +156,30 @@ pub struct KnownFinding {
     pub commit: Option<String>,
     #[serde(default)]
     pub replay: Option<String>,
+}
+
+/// `*` in a listed signature matches any run of characters
+pub fn sig_matches(pattern: &str, sig: &str) -> bool {
+    let parts: Vec<&str> = pattern.split('*').collect();
+    if parts.len() == 1 {
+        return pattern == sig;
+    }
+    let mut rest = sig;
+    for (i, part) in parts.iter().enumerate() {
+        if part.is_empty() {
+            continue;
+        }
+        match rest.find(part) {
+            Some(pos) => {
+                if i == 0 && pos != 0 {
+                    return false;
+                }
+                rest = &rest[pos + part.len()..];
+            }
+            None => return false,
+        }
+    }
+    parts.last().map_or(true, |l| l.is_empty() || sig.ends_with(l))
 }
 
 pub fn load_known(path: &str, prop: &str) -> Vec<KnownFinding> {
@@ -394,7 +418,7 @@ pub fn run_history_property(a: &WorkerArgs) -> WorkerReport {
             match r.verdict {
                 Verdict::Fail(f) => {
                     let sig = f.signature();
-                    if known.iter().any(|k| k.signature == sig) {
+                    if known.iter().any(|k| sig_matches(&k.signature, &sig)) {
                         *acc.rep.known.entry(sig).or_insert(0) += 1;
                     } else if !acc.rep.violations.iter().any(|v| v.signature == sig) {
                         let path = format!("{}/{}-{:016x}.json", a.replay_dir, pid, case.hash64());
@@ -461,7 +485,7 @@ pub fn run_history_property(a: &WorkerArgs) -> WorkerReport {
                     }
                     Verdict::Fail(f) => {
                         let sig = f.signature();
-                        if known.iter().any(|k| k.signature == sig) {
+                        if known.iter().any(|k| sig_matches(&k.signature, &sig)) {
                             if acc.counting {
                                 *acc.rep.known.entry(sig).or_insert(0) += 1;
                                 acc.record(&case, case.hash64(), r.stats.max_size, false, &r.stats);
@@ -516,7 +540,7 @@ pub fn replay_history(prop: u8, text: &str, strict_known: &[KnownFinding]) -> Re
     let r = run_one(&case, &cfg, false);
     match r.verdict {
         Verdict::Fail(f) => {
-            if strict_known.iter().any(|k| k.signature == f.signature()) {
+            if strict_known.iter().any(|k| sig_matches(&k.signature, &f.signature())) {
                 Ok(None)
             } else {
                 Ok(Some(f))
